@@ -247,7 +247,7 @@ op("outer", 2, lambda p, x, y: _np().outer(x, y), lambda p, x, y: _sp().outer(x,
 op("einsum_mm", 2, lambda p, x, y: _np().einsum("ij,jk->ik", x, y), lambda p, x, y: _sp().einsum("ij,jk->ik", x, y),
    lambda rng, xs, ctx: {} if xs[0].ndim == 2 and xs[1].ndim == 2 else None, zero=True, second="matmul", fill="zero", minnd=2)
 op("einsum_tr", 1, lambda p, x: _np().einsum(p["s"], x), lambda p, x: _sp().einsum(p["s"], x),
-   lambda rng, xs, ctx: {"s": rng.choice(["ij->ji", "ij->i", "ij->"])} if xs[0].ndim == 2 else None,
+   lambda rng, xs, ctx: {"s": rng.choice(["ij->ji", "ij->i", "ji->i", "ij->"])} if xs[0].ndim == 2 else None,
    zero=True, ret="any", fill="zero", minnd=2)
 
 
@@ -822,6 +822,23 @@ def gen_directed(rng, tier):
                 c["sweep"] = True
                 c["with_ref"] = True
                 cases.append(c)
+    for idt in ("uint8", "uint16", "uint32", "uint64", "int8"):
+        one = dense_spec([0, 4, 0, 2, 7, 0, 1, 0, 3], 0, "coo", None)
+        one["idx_dtype"] = idt
+        two = dense_spec([[1, 0, 2, 0], [0, 3, 0, 4], [5, 0, 0, 6]], 0, "coo", None)
+        two["idx_dtype"] = idt
+        for spec, name, p in ((one, "flip", {"axis": 0}), (one, "flip", {"axis": None}), (one, "roll", {"shift": 4, "axis": 0}),
+                              (one, "getitem", {"idx": [["s", None, None, -1]]}), (one, "getitem", {"idx": [["a", [8, 4, 1, 4]]]}),
+                              (two, "einsum_tr", {"s": "ji->i"}), (two, "einsum_tr", {"s": "ij->ji"}), (two, "T", {}),
+                              (two, "flip", {"axis": [0, 1]}), (two, "flatten", {})):
+            g = Gen(rng, wild=True)
+            g.narrow = 0.0
+            g.add_spec(dict(spec))
+            if g.try_step(name, force_p=p, force_args=[0]):
+                c = g.program()
+                c["sweep"] = True
+                c["with_ref"] = True
+                cases.append(c)
     canc = [[-3, 3, 0], [0, -1, -2], [2, -2, 0]]
     steps = [("sum", {"axis": 1, "keepdims": False}), ("sum", {"axis": None, "keepdims": False}), ("sum", {"axis": [0, 1], "keepdims": True}),
              ("nansum", {"axis": 1, "keepdims": False}), ("einsum_tr", {"s": "ij->i"}), ("einsum_tr", {"s": "ij->j"}),
@@ -1061,8 +1078,21 @@ def gen_ctor(rng, tier):
         data = [rng.choice([fill, 1, 2, -1, -2, 5]) for _ in coords]
         if i % 53 == 7 and coords and nd:
             data = data[:-1]                      # length mismatch -> ValueError
-        cases.append({"kind": "ctor", "shape": shape, "coords": coords, "data": data, "fill": fill,
+        idt = rng.choice([None, None, "uint8", "uint16", "uint32", "uint64", "int8", "int16", "int32"])
+        cases.append({"kind": "ctor", "idt": idt, "shape": shape, "coords": coords, "data": data, "fill": fill,
                       "sorted": rng.random() < 0.5, "hd": rng.random() < 0.5, "prune": rng.random() < 0.5})
+    # 1-d arrays, every coordinate dtype, coordinates given out of order and / or repeated, nothing promised
+    for idt in ("uint8", "uint16", "uint32", "uint64", "int8", "int16", "int32", "int64"):
+        for k in range(6 if tier == "quick" else 40):
+            n = rng.choice([3, 5, 9, 40])
+            m = rng.randint(2, min(n + 2, 12))
+            coords = [[rng.randint(0, n - 1)] for _ in range(m)]
+            if k % 3 == 0:
+                coords = [[c_] for c_ in sorted({c_[0] for c_ in coords}, reverse=True)]     # strictly decreasing
+            fill = rng.choice([0, 0, 3])
+            data = [rng.choice([1, 2, -1, 5]) for _ in coords]
+            cases.append({"kind": "ctor", "idt": idt, "shape": [n], "coords": coords, "data": data, "fill": fill,
+                          "sorted": False, "hd": True, "prune": k % 2 == 0})
     return cases
 
 
@@ -1124,6 +1154,8 @@ def impl_run(case):
         nd = len(case["shape"])
         m = len(case["coords"])
         coords = np.array(case["coords"], dtype=np.intp).reshape(m, nd).T if m else np.zeros((nd, 0), dtype=np.intp)
+        if case.get("idt"):
+            coords = coords.astype(case["idt"])
         data = np.array(case["data"], dtype=np.int64)
         try:
             r = sparse.COO(coords, data, shape=tuple(case["shape"]), fill_value=np.int64(case["fill"]),
@@ -1294,12 +1326,30 @@ def campaign(build, tier, seed, report, budget=1):
         ref = r["ref"]
         lits.append(vpair(vlib.sarr_lit(r["r"]), vbool(True), f"(Some ({vlist(ref['shape'])}, {vlist(ref['flat'])}))"))
         where.append((ci, -1))
+    # results of COO(...) itself, whenever the caller's promises are true (or nothing is promised): must be canonical
+    for ci, (c, r) in enumerate(zip(cases, res, strict=True)):
+        if c["kind"] != "ctor" or not r or "r" not in r or r["r"].get("k") != "coo":
+            continue
+        srt = c["coords"] == sorted(c["coords"])
+        nod = len({tuple(x) for x in c["coords"]}) == len(c["coords"])
+        if (c["sorted"] and not srt) or ((not c["hd"]) and not nod) or len(c["data"]) != len(c["coords"]):
+            continue
+        lits.append(vpair(vlib.sarr_lit(norm_plain(r["r"])), vbool(bool(c["prune"])), "None"))
+        where.append((ci, -2))
     bad = build.judge("c06_results", "From Verif Require Import Py Shape COO GCXS SArr Ctor C06Judge.", "c06_case", "judge_result", lits, chunk=400)
     seen_first = {}
     diffs = []
     for idx, code in bad:
         ci, si = where[idx]
         c, r = cases[ci], res[ci]
+        if c["kind"] == "ctor":
+            tag(f"verdict/{code}")
+            viol.append({"property": "C06", "op": "COO.__init__", "kind": "value", "clause": None, "code": code,
+                         "what": CODE_TEXT.get(code, str(code)) + " (constructor called with true promises / none)", "case": c, "impl": r["r"],
+                         "replay_py": f"import numpy as np, sparse; c=np.array({c['coords']!r}).reshape({len(c['coords'])}, {len(c['shape'])}).T.astype({(c.get('idt') or 'intp')!r}); "
+                                      f"x=sparse.COO(c, np.array({c['data']!r}), shape={tuple(c['shape'])!r}, fill_value={c['fill']}, sorted={c['sorted']}, "
+                                      f"has_duplicates={c['hd']}, prune={c['prune']}); print(x.coords, x.data)"})
+            continue
         if c["kind"] == "scipy":
             tag(f"verdict/{code}")
             viol.append({"property": "C06", "op": "from_scipy:" + c["conv"], "kind": "value", "code": code,
@@ -1326,8 +1376,6 @@ def campaign(build, tier, seed, report, budget=1):
             opnd = r["inputs"][st["args"][0][1]] if st["args"][0][0] == "in" else r["results"][st["args"][0][1]]
             if "n" in kinds and "i" in kinds and opnd.get("k") == "gcxs" and len(opnd["shape"]) >= 2:
                 clause = "gcxs_getitem_newaxis_with_int_malformed"
-        if st["op"] in ("einsum_tr", "einsum_mm") and code in (2, 3):
-            clause = "einsum_result_not_pruned"
         viol.append({"property": "C06", "op": st["op"], "kind": "value", "clause": clause, "code": code,
                      "what": CODE_TEXT.get(code, str(code)), "step": si, "program_depth": len(c["steps"]),
                      "case": {"inputs": c["inputs"], "steps": c["steps"][:si + 1]},
@@ -1347,6 +1395,7 @@ def campaign(build, tier, seed, report, budget=1):
         nod = len({tuple(x) for x in c["coords"]}) == len(c["coords"])
         tag("ctor/" + ("sorted-promise-false" if c["sorted"] and not srt else
                        "dup-promise-false" if (not c["hd"]) and not nod else "promises-kept"))
+        tag("ctor-idx/" + str(c.get("idt")))
     for idx, code in build.judge("c06_ctor", "From Verif Require Import Py Shape COO GCXS SArr Ctor C06Judge.", "ctor_case", "judge_ctor", clits, chunk=400):
         c = cases[cwhere[idx]]
         viol.append({"property": "C06", "op": "COO.__init__", "kind": "representation", "clause": None, "code": code,
@@ -1439,7 +1488,7 @@ def campaign(build, tier, seed, report, budget=1):
     agg = {}
     for k, v in tags.items():
         parts = k.split("/")
-        kk = k if parts[0] in ("ctor", "csr", "verdict", "exc", "idx_dtype", "narrow-nnz", "cscnd", "special-fill") else parts[0] + "/*/" + parts[-1]
+        kk = k if parts[0] in ("ctor", "ctor-idx", "csr", "verdict", "exc", "idx_dtype", "narrow-nnz", "cscnd", "special-fill") else parts[0] + "/*/" + parts[-1]
         agg[kk] = agg.get(kk, 0) + v
     cov["branch_tags"] = dict(sorted(agg.items()))
     cov["per_operation"] = dict(sorted(tags.items()))
